@@ -354,8 +354,15 @@ def blocked (hb : Tag) (ob sub : Option Tag) : BOp → Bool
   | .yield => ob == some hb
   | _ => false
 
+/-- ObserveOn and SubscribeOn naming the same handler with an unbuffered channel: Post from the handler's own goroutine
+    to itself can never be received; the property names two handlers.  Such a Subscribe is not part of a script
+    (`bad-op` on both sides) unless the head says the library under test supports it (`gs` / `is`). -/
+def sameUnbuffered (ob sub : Option Tag) : Bool :=
+  (ob == some .h1 && sub == some .h1) || (ob == some .h2 && sub == some .h2)
+
 /-- the guard as a function of whatever is pending -/
-def guarded {γ : Type} (pend : Option (Tag × γ)) (ob sub : Option Tag) (o : BOp) : Bool :=
+def guarded {γ : Type} (allowSame : Bool) (pend : Option (Tag × γ)) (ob sub : Option Tag) (o : BOp) : Bool :=
+  (match o with | .sub => !allowSame && sameUnbuffered ob sub | _ => false) ||
   match pend with
   | some (hb, _) => blocked hb ob sub o
   | none => false
@@ -369,6 +376,7 @@ structure ISt where
   cur : Nat
   w : World
   pend : Option (Tag × (World → World))   -- the handler held by the gated subscription, and what it still has to do
+  allowSame : Bool := false
 
 def implStep (st : ISt) : Op → ISt × String
   | .sel j =>
@@ -386,7 +394,7 @@ def implStep (st : ISt) : Op → ISt × String
   | .gsub =>
     match st.regs st.cur, st.pend with
     | some m, none =>
-      match m.obOn with
+      match (if !st.allowSame && sameUnbuffered m.obOn m.subOn then none else m.obOn) with
       | some hb =>
         let p := doSubscribeSplit m logNext m.obOn m.subOn .main st.w
         ({ st with w := p.1, pend := some (hb, p.2) }, showEvs (p.1.log.drop st.w.log.length))
@@ -395,7 +403,7 @@ def implStep (st : ISt) : Op → ISt × String
   | .basic o =>
     match st.regs st.cur with
     | some m =>
-      if guarded st.pend m.obOn m.subOn o then (st, "bad-op")
+      if guarded st.allowSame st.pend m.obOn m.subOn o then (st, "bad-op")
       else
         let r := implOp (m, st.w) o
         ({ st with regs := setReg st.regs st.cur r.1.1, w := r.1.2 }, r.2)
@@ -422,14 +430,19 @@ def runOps {σ : Type} (step : σ → String → σ × String) (init : σ) (ops 
 
 def w0 : World := ⟨[], 0⟩
 
-def istInit (t : Tree) : ISt := ⟨setReg (fun _ => none) 0 (den t 0), 0, w0, none⟩
+def headAllowsSame (head : String) : Bool :=
+  match tokens head with
+  | a :: _ => a == "gs" || a == "is"
+  | [] => false
+
+def istInit (t : Tree) (allowSame : Bool := false) : ISt := ⟨setReg (fun _ => none) 0 (den t 0), 0, w0, none, allowSame⟩
 
 /-- protocol entry point of the implementation model -/
 def handle (line : String) : String :=
   let (head, ops) := splitCase line
   match parseHead head with
   | none => "bad-case"
-  | some t => " | ".intercalate (runOps stepOp (istInit t) ops)
+  | some t => " | ".intercalate (runOps stepOp (istInit t (headAllowsSame head)) ops)
 
 /-! ### Spec-level oracle: the statement of the property evaluated directly
 
@@ -478,6 +491,7 @@ structure SSt where
   cur : Nat
   n : Nat
   pend : Option (Tag × Nat × Tag)
+  allowSame : Bool := false
 
 def specStep (st : SSt) : Op → SSt × String
   | .sel j =>
@@ -495,7 +509,7 @@ def specStep (st : SSt) : Op → SSt × String
   | .gsub =>
     match st.regs st.cur, st.pend with
     | some r, none =>
-      match r.ob with
+      match (if !st.allowSame && sameUnbuffered r.ob r.sub then none else r.ob) with
       | some hb =>
         let q := run r.t 0 st.n
         ({ st with n := st.n + q.2.length, pend := some (hb, q.1, r.sub.getD hb) }, joinEvs (showKinds q.2 hb))
@@ -504,7 +518,7 @@ def specStep (st : SSt) : Op → SSt × String
   | .basic o =>
     match st.regs st.cur with
     | some r =>
-      if guarded st.pend r.ob r.sub o then (st, "bad-op")
+      if guarded st.allowSame st.pend r.ob r.sub o then (st, "bad-op")
       else
         let q := specOp' ⟨r.t, r.ob, r.sub, st.n⟩ o
         ({ st with regs := setReg st.regs st.cur ⟨q.1.t, q.1.ob, q.1.sub⟩, n := q.1.n }, q.2)
@@ -515,13 +529,13 @@ def specOp (st : SSt) (op : String) : SSt × String :=
   | some o => specStep st o
   | none => (st, "bad-op")
 
-def sstInit (t : Tree) : SSt := ⟨setReg (fun _ => none) 0 ⟨t, rootOb t, rootSub t⟩, 0, 0, none⟩
+def sstInit (t : Tree) (allowSame : Bool := false) : SSt := ⟨setReg (fun _ => none) 0 ⟨t, rootOb t, rootSub t⟩, 0, 0, none, allowSame⟩
 
 def specCase (line : String) : String :=
   let (head, ops) := splitCase line
   match parseHead head with
   | none => "bad-case"
-  | some t => " | ".intercalate (runOps specOp (sstInit t) ops)
+  | some t => " | ".intercalate (runOps specOp (sstInit t (headAllowsSame head)) ops)
 
 def judge (line impl : String) : String :=
   if impl = specCase line then "allowed implementation agrees with the statement (chain once, in order, right goroutines); the model differs"
